@@ -545,8 +545,8 @@ class IOSupport:
             if intron not in gene_info.canonical_sites:
                 intron_left_pos = intron[0] - gene_info.all_read_region_start
                 intron_right_pos = intron[1] - gene_info.all_read_region_start
-                left_site = gene_info.reference_region[intron_left_pos:intron_left_pos+2]
-                right_site = gene_info.reference_region[intron_right_pos - 1:intron_right_pos + 1]
+                left_site = gene_info.reference_region[intron_left_pos:intron_left_pos+2].upper()
+                right_site = gene_info.reference_region[intron_right_pos - 1:intron_right_pos + 1].upper()
                 if strand == '+':
                     gene_info.canonical_sites[intron] = (left_site, right_site) in CANONICAL_FWD_SITES
                 else:
